@@ -260,6 +260,60 @@ def template_run(verif_seed, index, stratum="template"):
     return _drive(spec, A, stratum, index, producer, ref_mode)
 
 
+# ----------------------------------------- pairs of less common queries
+SLOW = sorted(O.SLOW_QUERIES)
+SLOWPAIR_FIRST = [None] + SLOW + ["sym_mols", "deepcopy"]
+SLOWPAIR_MID = [None, "switch"]
+SLOWPAIR_SOURCES = [
+    {"kind": "file", "name": "acetic_acid.cif"},
+    {
+        "kind": "synthetic", "content": "co", "sg": [148, "R"],
+        "cell": [8.5, 8.5, 8.5, 78.0, 78.0, 78.0],
+        "elements": ["C", "O", "O", "H", "H", "O"],
+        "frac": [[0.21, 0.33, 0.47], [0.30, 0.40, 0.55], [0.62, 0.71, 0.15],
+                 [0.70, 0.76, 0.21], [0.55, 0.78, 0.17], [0.12, 0.26, 0.39]],
+        "occupation": None, "via": "cif",
+    },
+]  # fmt: skip
+N_SLOWPAIRS = len(SLOWPAIR_SOURCES) * len(SLOWPAIR_FIRST) * len(SLOWPAIR_MID) * len(SLOW)
+
+
+def slowpair_of(index):
+    i = index % N_SLOWPAIRS
+    i, q = divmod(i, len(SLOW))
+    i, m = divmod(i, len(SLOWPAIR_MID))
+    i, p = divmod(i, len(SLOWPAIR_FIRST))
+    return SLOWPAIR_SOURCES[i % len(SLOWPAIR_SOURCES)], SLOWPAIR_FIRST[p], SLOWPAIR_MID[m], SLOW[q]
+
+
+def slowpair_run(verif_seed, index, stratum="slowpairs"):
+    """first (a less common query, a producer or a snapshot) -> optional
+    setting switch -> a less common query, asked twice, then a short audit:
+    every ordered pair of the expensive queries runs in every batch."""
+    rng = random.Random(run_seed(verif_seed, stratum, index))
+    spec, first, mid, q = slowpair_of(index)
+    A = gen_args(rng)
+    A["r"] = rng.choice([3.0, 3.8])
+    ref_mode = ref_mode_for(rng)
+    state = {"rest": None}
+
+    def producer(sim, fb):
+        if state["rest"] is None:
+            steps = []
+            if first:
+                steps.append({"h": 0, "op": first})
+            if mid == "switch":
+                choice = sim.world[0].space_group.choice
+                steps.append({"h": 0, "op": "toR" if choice == "H" else "toH"})
+            last = 1 if first == "deepcopy" else 0
+            steps += [{"h": last, "op": q}, {"h": last, "op": q}]
+            steps += audit_steps(len([0]) + (1 if first == "deepcopy" else 0), rng.sample(FAST_QUERIES, 3) + [rng.choice(SLOW)])
+            state["rest"] = iter(steps)
+        return next(state["rest"], None)
+
+    return _drive(spec, A, stratum, index, producer, ref_mode)
+
+
 # ------------------------------------------------- fault-point templates
 INJECT_SOURCES = [
     {"kind": "file", "name": "acetic_acid.cif"},
